@@ -11,6 +11,7 @@ CONSTANTS
   Tmo = {0, 1, 2}
   Horizon = 4
   AllowFaults = FALSE
+  OpenGarbage = FALSE
   AdapterErrors = FALSE
   AllowCancel = FALSE
   AllowStall = TRUE
